@@ -646,6 +646,7 @@ EvRdRecheck ==
   /\ Skip
 
 (* ---- termination observations ---- *)
+EvRunaway == Report("runaway-goroutine", [actor |-> A, last_hook |-> R.last]) /\ Skip
 EvBlocked == Report("api-call-blocks", [call |-> R.call, node |-> R.node]) /\ Skip
 EvLeak == Report(IF R.n # 0 THEN "goroutine-leak" ELSE "", [n |-> R.n, sample |-> R.sample]) /\ Skip
 EvTimeout == Report("shutdown-timeout", [node |-> A, what |-> R.what]) /\ Skip
@@ -703,6 +704,7 @@ Dispatch ==
     [] e = "cb"               -> EvCb
     [] e = "leak"             -> EvLeak
     [] e = "blocked"          -> EvBlocked
+    [] e = "runaway"          -> EvRunaway
     [] e = "wr.call"          -> EvWrCall
     [] e = "wr.ret"           -> EvWrRet
     [] e = "rd.call"          -> EvRdCall
